@@ -40,7 +40,7 @@ OIDS = sorted(WORK)
 ACTIONS = [("place-protected", i) for i in range(len(OIDS))] + [("place-unprotected", i) for i in range(len(OIDS))] + \
           [("mkdir", i) for i in range(len(OIDS))] + [("state-row", i) for i in range(len(OIDS))] + \
           [("probe-create", i) for i in range(len(OIDS))] + [("probe-finish", i) for i in range(len(OIDS))] + \
-          [("probe-wipe", i) for i in range(len(OIDS))]
+          [("probe-wipe", i) for i in range(len(OIDS))] + [("probe-gone", i) for i in range(len(OIDS))]
 # probe-wipe: the other writer decided to add object i before this writer placed it; its in-place probe (O_TRUNC, then unlink) therefore
 # truncates and removes whatever is under the final name at that moment - the object is *missing* until its probe-finish
 # probe-create / probe-finish: the two halves of another writer's add of object i as dvc_objects performs it - an in-place reflink
@@ -66,6 +66,10 @@ def _apply(env, cache, st, action):
             inner.files[inner._resolve(path)].data = b""
     elif kind == "probe-wipe":
         if inner.lexists(path) and not inner.isdir(path):
+            inner._p_unlink(path)
+    elif kind == "probe-gone":
+        # the other writer's probe cleans up its own transient (empty) file; it never removes a complete object here
+        if inner.lexists(path) and not inner.isdir(path) and inner.read(path) == b"" and WORK[oid] != b"":
             inner._p_unlink(path)
     elif kind == "probe-finish":
         inner.makedirs(path.rsplit("/", 1)[0], exist_ok=True)
@@ -100,12 +104,14 @@ def _run(env, plan):
     while pending and pending[0][0] < 0:
         _apply(env, cache, st, pending.pop(0)[1])
     base = len(env.inner.log)
+    env.inner.hook_on_reads = bool(cube("reads", False))  # interference may also strike between two *queries* of this writer
     env.inner.pre_mutation = hook
     try:
         staging, meta, obj = build(cache, env.p("src"), env.fs, "md5", upload=UPLOAD)
         transfer(staging, cache, {obj.hash_info}, shallow=False)
     finally:
         env.inner.pre_mutation = None
+        env.inner.hook_on_reads = False
     # the other writers run to completion too: steps scheduled after this writer's last mutation happen now
     while pending:
         _apply(env, cache, st, pending.pop(0)[1])
@@ -123,7 +129,7 @@ def reference():
 
 def h_interfere(e1: int, a1: int, e2: int, a2: int) -> bool:
     """
-    pre: -1 <= e1 <= 60 and -1 <= e2 <= 60 and 0 <= a1 <= 20 and 0 <= a2 <= 20
+    pre: -1 <= e1 <= 60 and -1 <= e2 <= 60 and 0 <= a1 <= 23 and 0 <= a2 <= 23
     post: _
     """
     with NoTracing():
@@ -135,7 +141,12 @@ def h_interfere(e1: int, a1: int, e2: int, a2: int) -> bool:
     if cube("probe", None) is not None:  # paired: the other writer's probe opens at k1 and its add completes at k2 >= k1
         i = int(cube("probe"))
         first = "probe-wipe" if cube("wipe", False) else "probe-create"
-        plan = [(k1, (first, i)), (pick(e2, k1, min(n, k1 + int(cube("span", 99)))), ("probe-finish", i))]
+        k2 = pick(e2, k1, min(n, k1 + int(cube("span", 99))))
+        if cube("second", "finish") == "wipe":
+            # the probe's transient file appears at k1 and is cleaned up at k2; the other writer's copy lands after this writer is done
+            plan = [(k1, (first, i)), (k2, ("probe-gone", i)), (n + 1, ("probe-finish", i))]
+        else:
+            plan = [(k1, (first, i)), (k2, ("probe-finish", i))]
     else:
         act1 = int(cube("a1")) if cube("a1", None) is not None else pick(a1, 0, len(ACTIONS) - 1)
         plan.append((k1, ACTIONS[act1]))
